@@ -1547,6 +1547,7 @@ func (mgr *Manager) convertStreamJob(allConverters []*converters.CachedConverter
 					results <- result{job, err}
 					return
 				}
+				results <- result{job, fmt.Errorf("stream %d not found", job.streamID)}
 			}()
 		}
 
